@@ -1610,7 +1610,9 @@ impl StorageEngine {
                 _ => return Err(StorageError::WrongType.into()),
             }
         } else {
-            return Ok(Vec::new());
+            // A missing first key is an empty set; the other keys are still looked at, because
+            // a key of another type is an error whatever the result would be
+            HashSet::new()
         };
         drop(shard_guard); // Release lock early
         
